@@ -317,5 +317,12 @@ func genPageCase(t *rapid.T, o pageGenOpts) PageCase {
 	if c.Size == 0 {
 		c.Size = 1
 	}
+	if chancePct(t, 1, "giant") {
+		// a page of a multiple of 64 KiB more than one that would (almost) fit: lengths are
+		// not 16-bit quantities
+		m := 1 + uniformN(t, 2, "giantm")
+		j := uniformN(t, 20, "giantj")
+		c.Tpl = strings.Repeat("filler text ", 65536*m/12+1)[:65536*m-j] + c.Tpl
+	}
 	return c
 }
